@@ -47,7 +47,7 @@ PROPS = {
         "previously seen object was found replaced-and-revoked at a checkpoint",
         "floors": {"__nontrivial__": 0.40, "keyroll_activate": 0.10, "child_suspended": 0.05, "ca_deleted": 0.03, "parent_removed": 0.02},
         "assumptions": W_ASSUME + ["objects are identified by (issuer key identifier, serial); manifests and CRLs are excluded as the property says"],
-        "technique": "property-based testing of operation histories with a history invariant: every object ever observed is either still published byte-identical or its serial is on the issuing key's CRL (while that key publishes one and the object is unexpired); plus model-driven absence checks",
+        "technique": "property-based testing of operation histories with a history invariant: every object ever observed is either still published byte-identical or its serial is on the issuing key's CRL (while that key publishes one and the object is unexpired); plus model-driven absence checks; parent synchronisations are held back in part of the histories so that checkpoints see key rolls in their intermediate states",
         "level_text": "Exploration by generated histories with a model-free history invariant over all objects ever published, plus absence checks driven by the intent model (no certificate for a non-child key, nothing under a removed class or deleted CA). Sampling, not proof.",
         "level_note": "Trusted base: rpki decoding of certificates, ROAs, ASPAs and CRLs; the intent model for the absence checks. 'After the next synchronisation' = the checkpoint after convergence.",
     },
@@ -87,7 +87,7 @@ PROPS = {
         "repository is decoded again; distinct by hash of the case JSON; non-trivial iff some experiment had at least one key set due and at least one not due, or ran while a key roll was in progress",
         "floors": {"__nontrivial__": 0.20, "run_with_due_set": 0.30, "run_with_nothing_due": 0.03, "run_during_roll": 0.05},
         "assumptions": W_ASSUME + ["'due' is computed from the decoded next-update / not-after values (krill adds random jitter to next-update)", "the embedded trust anchor's own manifest is only refreshed by signer exchanges; histories stay below its next-update time and its key is exempt from the 'due' clauses"],
-        "technique": "property-based testing with a virtual clock: before/after comparison of decoded manifest and CRL numbers, validity windows and payload sets around each maintenance run (metamorphic: a pure re-issue changes numbers by exactly one and nothing else)",
+        "technique": "property-based testing with a virtual clock: before/after comparison of decoded manifest and CRL numbers, validity windows and payload sets around each maintenance run (metamorphic: a pure re-issue changes numbers by exactly one and nothing else); timing configurations include margins one to three weeks below the lifetime and clock advances aimed at every object kind's margin, so that objects do enter their re-issue margin",
         "level_text": "Exploration by generated timing configurations and histories. For every maintenance run: each key set that was due is re-issued exactly once (manifest number +1, equal to the CRL number), sets that were not due are untouched, nothing due means byte-identical repository, signed objects inside their re-issue margin are renewed, all windows contain the present (RP walk), numbers never decrease over the whole history, and the payload sets are unchanged. Sampling, not proof.",
         "level_note": "Trusted base: rpki decoding, the virtual clock, the pump. For steps in which commands were recorded for a CA the number increment is only bounded (at most commands+1), as several commands can re-issue within one task.",
     },
@@ -100,7 +100,7 @@ PROPS = {
         "duplicate, unknown, trust-anchor child); each request is judged; distinct by hash of the case JSON; non-trivial iff at least one multi-entry request was refused and at least one request was accepted",
         "floors": {"__nontrivial__": 0.50, "roa:accepted": 0.30, "roa:refused": 0.50, "aspa-providers:accepted": 0.10, "bgpsec:refused": 0.10, "child-add:accepted": 0.10},
         "assumptions": W_ASSUME + ["held resources = union of the certificates of the CA's current keys, as the code documents", "error kinds are not compared, only accept / refuse and the resulting state"],
-        "technique": "property-based differential testing: accept/refuse verdict and resulting configuration of every generated request compared with a reference decision procedure written from the property text and the doc comments; refused requests must leave configuration, repository bytes and scheduled tasks unchanged",
+        "technique": "property-based differential testing: accept/refuse verdict and resulting configuration of every generated request compared with a reference decision procedure written from the property text and the doc comments; refused requests must leave configuration, repository bytes and scheduled tasks unchanged; requests name new as well as existing definitions (also an existing router-key definition as a whole after the AS was lost)",
         "level_text": "Exploration by generated request sequences with a reference model as oracle (iff on the verdict, equality on the applied state, no-change on refusal). Tens of thousands of judged requests per run; sampling, not proof.",
         "level_note": "Trusted base: the 150-line reference procedure in harness/src/props/c05.rs, rpki ResourceSet arithmetic. ca_child_update with the empty set is accepted by design (documented) and modelled so.",
     },
@@ -128,7 +128,7 @@ PROPS = {
                         "all writers use one store object, as in the daemon; a second store object over the same storage is only read from",
                         "the thread schedule is chosen by the OS and perturbed at the yield points; it is not enumerated"],
         "technique": "property-based concurrency testing: generated multi-threaded command schedules against the real store, with an invariant over the resulting history as oracle (contiguous versions, one record per state-changing or rejected command with actor and error, none for no-op and pre-save failures, "
-        "final state = fold of the audit log = replay in a fresh store, every state returned to any caller or seen by any reader = the state after a prefix of the log, post-save listeners see every accepted event once)",
+        "final state = fold of the audit log = replay in a fresh store, every state returned to any caller or seen by any reader = the state after a prefix of the log, post-save listeners see every accepted event once; for an entity that the writer threads create (and in some cases drop) themselves: successful creations <= successful drops + 1, and without drops every command its caller was told about is in the log of the one creation)",
         "level_text": "Exploration by generated concurrent schedules with random perturbation at hook points; linearisability-style history check. Sampling of schedules, not proof.",
         "level_note": "Trusted base: the harness aggregate; OS scheduling.",
     },
@@ -145,7 +145,7 @@ PROPS = {
                         "histories whose tree is already invalid before the fault (known findings of C01) are not used", "background work has caught up = task queue empty incl. tasks that were rescheduled to within two hours, the periodic parent refresh, and, if the comparison still fails, one cycle of the periodic re-publication (clock moved past the next manifest re-issue)", "a failed write after which the scheduler gives up (krill exits there) is followed by a restart", "operations that are several commands in a row (attach = add child + add parent, add CA = create + connect repository) may be cut between the commands; they are re-submitted step by step and only the final comparison applies"],
         "technique": "fault-injection property-based testing with a differential oracle: generated history, then the target operation runs fault-free in a twin opened on a copy of the data directory and with an injected failed write or crash+restart in the original; "
         "all-or-nothing and acknowledged-implies-present are decided by comparing the configuration with the states before and of the twin, validity and payloads by the relying-party walk, convergence after re-submission by comparison with the twin",
-        "level_text": "Exploration: cut positions are sampled uniformly over the counted mutations of generated operations; not an exhaustive enumeration of every cut of every operation. Sampling, not proof.",
+        "level_text": "Exploration: cut positions are sampled over the counted mutations of generated operations (half uniformly, half by first choosing one of the stores the operation touched and then a mutation of that store); not an exhaustive enumeration of every cut of every operation. Sampling, not proof.",
         "level_note": "Trusted base: the hook points cover the mutation sites listed; the directory copy; the relying-party walk.",
     },
     "C12": {
@@ -212,7 +212,7 @@ PROPS = {
                         "a request or task that does not return within 90 s of wall-clock time counts as a hang; it is reported only if it shows again when the shrunk case is re-run",
                         "key-roll starts may be refused (a roll is already in progress): either answer is serial"],
         "technique": "property-based concurrency testing with commuting request sets: generated multi-threaded request schedules against the real runtime plus scheduler stand-in, with the sequential reference model and the relying-party walk as oracle after quiescence (everything asked for is present once, nothing else, tree valid, RRDP/rsync/publisher views agree), "
-        "per-request answers compared with the serial answer, watchdog for completion; the same generator and oracle against the real daemon over HTTP (its worker and scheduler threads), plus 'every effective ROA request is in the command history exactly once'",
+        "per-request answers compared with the serial answer, watchdog for completion; right after the concurrent phase the repository content served and the CA status reported are compared with what a new instance loads from the same storage (no update lost between cache and storage); request threads also handle signed RFC 6492 list requests of remote children and queue the snapshot task; the same generator and oracle against the real daemon over HTTP (its worker and scheduler threads), plus 'every effective ROA request is in the command history exactly once'",
         "level_text": "Exploration by generated concurrent schedules with random perturbation. Sampling of schedules, not proof; a deadlock that needs a rare interleaving can be missed.",
         "level_note": "Trusted base: OS scheduling, the hook points, the reference model shared with C01.",
     },
@@ -225,7 +225,7 @@ PROPS = {
         "outcome is known; distinct by hash of the case JSON; non-trivial iff a failed exchange was later followed by a success for the same peer, or a restart happened after a failure",
         "floors": {"__nontrivial__": 0.08, "failed_exchange": 0.20, "publisher_removed": 0.15, "restart": 0.05},
         "assumptions": W_ASSUME + ["timestamps are not compared", "the entitlements shown are compared with what the CA holds after synchronisation (for parents other than the trust anchor)"],
-        "technique": "property-based testing of operation histories with probe exchanges: reported status (parents, repository, issues, children) compared with the known outcome of the most recent exchange; published-object list compared as a duplicate-free set with the publication server's content; status digest compared before and after restarts",
+        "technique": "property-based testing of operation histories with probe exchanges: reported status (parents, repository, issues, children) compared with the known outcome of the most recent exchange; published-object list compared as a duplicate-free set with the publication server's content; status digest compared before and after restarts; reported status compared with a new status store on the same storage at every checkpoint; break/repair episodes (child removed and added again, identity replaced and registered, publisher removed and re-created) so that failures are followed by successes",
         "level_text": "Exploration by generated histories. failure-with-error iff the probe failed, success otherwise together with the entitlements, published list = server content after a successful sync, child entries at the parent, entries of removed parents/children/CAs gone, identical views across restart. Sampling, not proof.",
         "level_note": "Trusted base: the probe calls (ca_sync_parent, cas_repo_sync_single) are krill's own synchronisation entry points; their Ok/Err is taken as the outcome of the exchange.",
     },
